@@ -592,6 +592,15 @@ def run(run):
     attach(run, fx)
     childreg(run, fx, vm)
     listops(run, fx)
+    from . import ordint as O_
+    try:
+        cases_, bad_ = listops_exec(run, fx)
+        if bad_:
+            run.violated('LISTOPS', 'child / removeChild on every small chain (interpreted)', fx.one('graphite2::Slot::child').where(), bad_)
+        else:
+            run.held('LISTOPS', 'child / removeChild on every small chain (interpreted)', fx.one('graphite2::Slot::child').where(), '%d abstract executions' % cases_)
+    except O_.AnalysisBroken as ex:
+        run.broken('LISTOPS', 'child / removeChild on every small chain (interpreted)', str(ex), '')
     detach(run, vm)
     basechain(run, fx)
     lk = fx.one('graphite2::Segment::linkClusters')
@@ -620,3 +629,66 @@ def run(run):
                      'original\'s: the copy ends up unmarked, an attachment to it is accepted and garbage collection never frees it')
     else:
         run.violated('DETACH', 'TEMP_COPY marks the copy', tc.where(), 'the scratch copy is not marked copied')
+
+
+def listops_exec(run, fx, maxn=4):
+    """LISTOPS by bounded execution (rules/ordint.py): Slot::child (with Slot::sibling) and Slot::removeChild are interpreted on a parent
+    with every child chain of 0..maxn slots and every argument -- the parent itself, each member of the chain, a slot that is not in it.
+    child(): refuses the parent itself and changes nothing; accepts a member and changes nothing; appends a new slot at the end, once.
+    removeChild(): removes exactly the member named, clears its sibling link and keeps the others in order; reports false and changes
+    nothing for anything else.  The chain never becomes cyclic."""
+    from . import ordint as O
+    PS = 'graphite2::Slot::'
+    srec = fx.record('graphite2::Slot')
+    fc, fr = fx.one('graphite2::Slot::child'), fx.one('graphite2::Slot::removeChild')
+
+    def mkslot(k):
+        s = O.Rec()
+        for f in srec['fields']:
+            s[PS + f['n']] = O.Ptr(None) if f.get('ptr') else 0
+        s['#'] = k
+        return s
+
+    def chain(P, limit):
+        out, c, seen = [], P[PS + 'm_child'], set()
+        while isinstance(c, O.Ptr) and c.rec is not None:
+            if id(c.rec) in seen or len(out) > limit:
+                return None
+            seen.add(id(c.rec))
+            out.append(c.rec['#'])
+            c = c.rec[PS + 'm_sibling']
+        return out
+    cases = 0
+    for n in range(0, maxn + 1):
+        for what in ['parent', 'new'] + list(range(n)):
+            for op in ('child', 'removeChild'):
+                P = mkslot(99)
+                kids = [mkslot(i) for i in range(n)]
+                for i, k_ in enumerate(kids):
+                    k_[PS + 'm_parent'] = O.Ptr(P)
+                    k_[PS + 'm_sibling'] = O.Ptr(kids[i + 1]) if i + 1 < n else O.Ptr(None)
+                P[PS + 'm_child'] = O.Ptr(kids[0]) if n else O.Ptr(None)
+                X = mkslot(77)
+                arg = P if what == 'parent' else X if what == 'new' else kids[what]
+                desc = 'Slot::%s(%s) on a parent with %d child(ren)' % (op, {'parent': 'the parent itself', 'new': 'a slot that is not a child'}.get(what, 'child #%s' % what), n)
+                it = O.Interp(fx)
+                it.MAX_STEPS = 3000
+                cases += 1
+                try:
+                    res = it.call(fc if op == 'child' else fr, P, [O.Ptr(arg)])
+                except O.Violation as v:
+                    return cases, '%s: %s (%s)' % (desc, v.what, v.loc)
+                got = chain(P, n + 2)
+                if got is None:
+                    return cases, '%s: the child chain is cyclic afterwards' % desc
+                res = bool(res)
+                old = list(range(n))
+                if op == 'child':
+                    want, wres = (old, False) if what == 'parent' else (old + [77], True) if what == 'new' else (old, True)
+                else:
+                    want, wres = ([i for i in old if i != what], True) if isinstance(what, int) else (old, False)
+                if got != want or res != wres:
+                    return cases, '%s: returns %s and leaves the chain %s; expected %s and %s' % (desc, res, got, wres, want)
+                if op == 'removeChild' and isinstance(what, int) and kids[what][PS + 'm_sibling'].rec is not None:
+                    return cases, '%s: the removed child keeps its sibling link (#%s): it still leads into this parent\'s chain' % (desc, kids[what][PS + 'm_sibling'].rec['#'])
+    return cases, None
